@@ -15,6 +15,10 @@ Streams
              convert_response - as a line tracepoint, a METHOD tracepoint (FunctionLocation, line -1) or a capture-stage
              one; the collected snapshot also goes through the real PushService._push_task on a channel that serialises
              and parses back: the message that ARRIVES is judged)
+  scale      snapshots built directly as EventSnapshot objects: well past 4 MiB on the wire (6000 x 1024-char values),
+             past 2^16 table entries, and small ones, all with numeric fields at 2^31-1 / 2^31 / 2^31+1 / 2^32-1 /
+             2^63-1 / 2^63 / 2^64-1, through the real PushService._push_task and parsed back: every table entry must
+             arrive, no id may dangle, every field equals the snapshot's (small ones also go to the model, bytes included);
   tpline     the line number a line / method tracepoint reports and whether an (empty) snapshot of it is sent;
   wirebytes  "survives serialisation", beyond what an encoder writes: the real bytes of a converted snapshot with a
              structured change (unknown fields of every wire type inserted, records reordered, a singular scalar
@@ -1155,6 +1159,71 @@ def run_wirebytes(case):
     return obs
 
 
+BOUNDS32 = [2 ** 31 - 1, 2 ** 31, 2 ** 31 + 1, 2 ** 32 - 1]
+BOUNDS64 = [2 ** 31 + 1, 2 ** 32 - 1, 2 ** 32, 2 ** 63 - 1, 2 ** 63, 2 ** 64 - 1]
+
+
+def scale_snapshot(case):
+    """a real EventSnapshot built directly (not through the collector): `entries` table entries whose values are
+    `strlen` characters long, every entry referenced from a frame or from another entry, numeric fields at the
+    boundaries given in the case"""
+    from deep.api.tracepoint import EventSnapshot, TracePointConfig, StackFrame, Variable, VariableId, WatchResult
+    from deep.api.resource import Resource
+    n, ln, nums = case['entries'], case['strlen'], case['nums']
+    pad = ('x' if case.get('ascii', True) else 'é') * ln
+    lookup = {}
+    for i in range(1, n + 1):
+        kids = [VariableId(str(i + 1), 'c%d' % i)] if i < n and i % 3 == 0 else []
+        lookup[str(i)] = Variable('str', ('%d:' % i + pad)[:max(ln, len(str(i)) + 1)], str(i * 7919), kids, i % 2 == 0)
+    top = [VariableId(str(i), 'v%d' % i) for i in range(1, n + 1) if (i - 1) % 3 != 0 or i == 1][:max(1, n)]
+    frames = [StackFrame('/app/big.py', 'big.py', 'fn', nums['line'], top, 'Cls', app_frame=True,
+                         column_number=nums['col'], transpiled_file_name='big.ts',
+                         transpiled_line_number=nums['tline'], transpiled_column_number=nums['tcol'])]
+    s = EventSnapshot(TracePointConfig('tp-scale', 'big.py', nums['tp_line'], {'fire_count': '1'}, [], []), nums['ts'],
+                      Resource({'service.name': 'svc', 'n': nums['attr_int']}), frames, lookup)
+    s.add_watch_result(WatchResult('WATCH', 'v1', VariableId('1', 'v1')))
+    s.attributes['big'] = nums['attr_int']
+    s.complete()
+    s._duration_nanos = nums['duration']          # (complete() reads the clock; the boundary value is set directly)
+    return s
+
+
+def run_scale(case):
+    """convert + PushService._push_task + parse back; judged here against the expectation built from the snapshot alone
+    (the observation of a 7 MB message is reduced to what the verdict needs)"""
+    s = scale_snapshot(case)
+    sd = dump_snapshot(s)
+    obs = {'entries': len(sd['var_lookup']), 'small': case['entries'] * case['strlen'] < 200_000}
+    try:
+        arrived, hexs = push_and_parse(s)
+    except BaseException as e:  # noqa: B902
+        return dict(obs, arrived=False, raised=f'{type(e).__name__}: {e}'[:300])
+    if arrived is None:
+        return dict(obs, arrived=False)
+    obs.update(arrived=True, bytes=len(hexs) // 2, arrived_entries=len(arrived['var_lookup']))
+    exp = expect_msg(sd)
+    got = canon_msg(arrived)
+    have = {json.dumps(kv[0]) for kv in got['var_lookup']}
+    missing = [kv[0] for kv in exp['var_lookup'] if json.dumps(kv[0]) not in have]
+    refs = set()
+    for f in got['frames']:
+        refs.update(v['ID'] for v in f['variables'])
+    for _, v in got['var_lookup']:
+        refs.update(c['ID'] for c in v['children'])
+    for w in got['watches']:
+        if w['good_result']:
+            refs.add(w['good_result']['ID'])
+    dangling = sorted((r for r in refs if json.dumps(r) not in have), key=lambda x: (len(x), x))
+    obs['missing'] = len(missing)
+    obs['missing_sample'] = missing[-3:]
+    obs['dangling'] = len(dangling)
+    obs['dangling_sample'] = dangling[:3]
+    obs['diffs'] = [] if not missing and got == exp else diff(got, exp, 'arrived')[:4]
+    if obs['small']:
+        obs['snapshot'], obs['msg'], obs['hex'] = sd, arrived, hexs
+    return obs
+
+
 def run_tpline(case):
     """the line number a tracepoint reports (TracePointConfig.line_no) for a tracepoint configured by the service"""
     args = {'method_name': 'fn'} if case['how'] == 'method' else {}
@@ -1180,6 +1249,8 @@ def run_impl(case):
     k = case['kind']
     if k == 'tpline':
         return run_tpline(case)
+    if k == 'scale':
+        return run_scale(case)
     if k == 'wirebytes':
         return run_wirebytes(case)
     if k == 'uploads':
@@ -1213,7 +1284,7 @@ def attr_values(case):
     elif case['kind'] == 'uploads':
         for sp in case['snaps']:
             vals += [v for _, v in sp['attrs']] + [v for _, v in sp['resource']]
-    elif case['kind'] == 'tpline':
+    elif case['kind'] in ('tpline', 'scale'):
         pass
     elif case['kind'] == 'wirebytes':
         vals += [v for _, v in case['snap']['attrs']] + [v for _, v in case['snap']['resource']]
@@ -1335,6 +1406,18 @@ def oracle_uploads(case, obs):
 
 def oracle(case, obs):
     k = case['kind']
+    if k == 'scale':
+        what = 'snapshot with %d table entries of %d-character values' % (case['entries'], case['strlen'])
+        if not obs.get('arrived'):
+            return [what + ': NO message reached the service (%s)' % obs.get('raised', 'convert_snapshot returned None / nothing sent')]
+        v = []
+        if obs['missing']:
+            v.append(what + ' (%d bytes on the wire): %d of its %d variable-table entries are MISSING from the message '
+                     'that arrived (e.g. ids %s)' % (obs['bytes'], obs['missing'], obs['entries'], obs['missing_sample']))
+        if obs['dangling']:
+            v.append('%d variable ids in the arrived message refer to entries that are not in it (e.g. %s)'
+                     % (obs['dangling'], obs['dangling_sample']))
+        return (v + obs['diffs'])[:5]
     if k == 'tpline':
         if not obs.get('built'):
             return []
@@ -1460,6 +1543,10 @@ def oracle(case, obs):
 
 def model_request(case, obs):
     k = case['kind']
+    if k == 'scale':
+        if not obs.get('small') or 'snapshot' not in obs:
+            return None                 # megabytes of bytes are not fed to the interpreted driver
+        return {'op': 'convert', 'snapshot': obs['snapshot'], 'hex': obs['hex']}
     if k == 'tpline':
         return {'op': 'lineno', 'location_line': obs['location_line']} if obs.get('built') else None
     if k == 'wirebytes':
@@ -1542,6 +1629,13 @@ def compare(case, obs, resp):
     if 'error' in resp:
         return ['model error: ' + resp['error']]
     k = case['kind']
+    if k == 'scale':
+        d = diff(canon_msg(resp['msg']), canon_msg(obs['msg']), 'model-vs-implementation')
+        if not d and not resp['collectable']:
+            d.append('model: the boundary snapshot is outside `collectable`')
+        if not d:
+            d += compare_wire(obs, resp, obs['msg'], canon_msg)
+        return d[:4]
     if k == 'tpline':
         d = []
         if resp['line_no'] != obs['line_no']:
@@ -1892,6 +1986,21 @@ def gen_wirebytes(rng):
             'mut': {'kind': kind, 'seed': rng.randrange(2 ** 32), 'n': rng.choice([1, 2, 5])}}
 
 
+def gen_scale(rng, size):
+    nums = {'line': rng.choice(BOUNDS32 + [0, 1, 40]), 'col': rng.choice(BOUNDS32 + [0]), 'tline': rng.choice(BOUNDS32 + [0]),
+            'tcol': rng.choice(BOUNDS32 + [0]), 'tp_line': rng.choice(BOUNDS32 + [0, 7]),
+            'ts': rng.choice(BOUNDS64 + [0, 1]), 'duration': rng.choice(BOUNDS64 + [0, 1]),
+            'attr_int': rng.choice([2 ** 31 - 1, 2 ** 31 + 1, 2 ** 32 - 1, 2 ** 63 - 1, -2 ** 63, -2 ** 31 - 1])}
+    if size == 'bytes':            # well past 4 MiB on the wire
+        entries, strlen = rng.choice([[6000, 1024], [4500, 1500], [900, 9000]])
+    elif size == 'entries':        # past 2^16 table entries (and past 4 MiB)
+        entries, strlen = rng.choice([[70000, 60], [66000, 80]])
+    else:
+        entries, strlen = rng.choice([[0, 1], [1, 1], [3, 20], [40, 100], [255, 10], [256, 3]])
+    return {'kind': 'scale', 'stream': 'main', 'entries': entries, 'strlen': strlen, 'nums': nums,
+            'ascii': rng.random() < 0.7}
+
+
 def gen_rotating(rng):
     """a provider whose token rotates / expires between operations (labelled: known finding)"""
     n = rng.randint(2, 6)
@@ -1933,8 +2042,7 @@ def gen(rng, tier):
             kind = rng.choice(['snapshot', 'snapshot', 'value', 'auth'])
             yield {'snapshot': gen_snapshot, 'value': gen_value, 'auth': gen_auth}[kind](rng, stream)
             continue
-        if r > 0.985:
-            yield {'kind': 'tpline', 'stream': 'main', 'how': rng.choice(['method', 'line']),
+XX, 'stream': 'main', 'how': rng.choice(['method', 'line']),
                    'line': rng.choice([0, 1, 40, 2 ** 31, 2 ** 32 - 1, rng.randint(1, 5000)])}
             continue
         c = gen_snapshot(rng) if r < 0.58 else gen_uploads(rng) if r < 0.61 else gen_wirebytes(rng) if r < 0.68 \
@@ -2008,6 +2116,15 @@ def corpus():
          'cfg': {'provider': 'deep.api.auth.BasicAuthProvider', 'username': 5, 'password': 'x'},
          'ops': ['push', 'poll'], 'resource': [],
          'snaps': [{'tp_id': 'tp0', 'ts': 1_700_000_000_000_000_000, 'attrs': [], 'resource': []}]},
+        {'kind': 'scale', 'stream': 'main', 'entries': 6000, 'strlen': 1024, 'ascii': True,
+         'nums': {'line': 2 ** 31 + 1, 'col': 2 ** 32 - 1, 'tline': 2 ** 31 - 1, 'tcol': 2 ** 31, 'tp_line': 2 ** 32 - 1,
+                  'ts': 2 ** 63 - 1, 'duration': 2 ** 64 - 1, 'attr_int': 2 ** 63 - 1}},
+        {'kind': 'scale', 'stream': 'main', 'entries': 66000, 'strlen': 70, 'ascii': False,
+         'nums': {'line': 2 ** 32 - 1, 'col': 0, 'tline': 0, 'tcol': 0, 'tp_line': 2 ** 31 + 1, 'ts': 2 ** 64 - 1,
+                  'duration': 2 ** 63 - 1, 'attr_int': -2 ** 63}},
+        {'kind': 'scale', 'stream': 'main', 'entries': 40, 'strlen': 100, 'ascii': False,
+         'nums': {'line': 2 ** 31, 'col': 2 ** 31 + 1, 'tline': 2 ** 32 - 1, 'tcol': 2 ** 31 - 1, 'tp_line': 2 ** 31 - 1,
+                  'ts': 2 ** 63, 'duration': 2 ** 32, 'attr_int': -2 ** 31 - 1}},
         wb('dup-map-key', 7), wb('oneof-both', 8), wb('oneof-both', 9), wb('big-enum', 10),
         {'kind': 'auth', 'stream': 'main', 'concurrent': True,
          'cfg': {'provider': 'props.c08.ScriptedProvider', 'custom_md': [['authorization', 'Bearer s3cr3t']]},
@@ -2063,6 +2180,9 @@ def label(case, obs):
     k = case['kind']
     s = case.get('stream', 'main')
     pre = f'{k}/' + ('' if s in ('main', 'bad-credentials') else 'seq-none/' if s == 'seq-none' else f'KNOWN:{s}/')
+    if k == 'scale':
+        return pre + ('not-sent' if not obs.get('arrived') else
+                      '>4MiB' if obs['bytes'] > 4 * 1024 * 1024 else '>2^16-entries' if obs['entries'] > 2 ** 16 else 'boundaries')
     if k == 'tpline':
         return pre + case['how'] + ('/not-built' if not obs.get('built') else '')
     if k == 'wirebytes':
